@@ -170,6 +170,7 @@ var hmsExpected = []hmsExpect{
 }
 
 func c34(c *an.Check) {
+	handlerConfigPlumbing(c)
 	p := c.P
 	// discover handler filter functions: take a link.HandleMountedStream and return ([]directive.Resolver, error)
 	var handlers []*ssa.Function
@@ -367,4 +368,65 @@ func keysOf(m map[string]bool) []string {
 	}
 	sort.Strings(o)
 	return o
+}
+
+// handlerConfigPlumbing: what reaches the filters is the configuration the operator wrote —
+//   - srpc server defaults are filled in only when no protocol ids are configured (an explicit list is never widened);
+//   - configuration equivalence of the stream-handler controllers compares whole messages (EqualVT), so two
+//     registrations differing in any filter field are two controllers, not one.
+func handlerConfigPlumbing(c *an.Check) {
+	p := c.P
+	ad := p.Func("stream/srpc/server", "Config", "ApplyDefaults")
+	if ad == nil {
+		c.Undecided("GATE", "srpc server Config.ApplyDefaults", nil, "unresolved anchor")
+	} else {
+		c.Gate(an.GateSpec{Construct: "srpc server Config.ApplyDefaults adds the default protocol ids", Fn: ad,
+			Sink: func(s *an.State, ins ssa.Instruction) bool {
+				st, ok := ins.(*ssa.Store)
+				if !ok {
+					return false
+				}
+				f := an.FieldOfAddr(st.Addr)
+				return f != nil && f.Name() == "ProtocolIds"
+			},
+			Reqs: []an.Req{an.FactReq("no protocol ids configured (len(configured)==0)", func(s *an.State, x, y ssa.Value, r an.Rel) bool {
+				return r == an.EQ && an.IsIntConst(y, 0) && an.LenOf(s, x, func(a ssa.Value) bool {
+					call, ok := s.Canon(a).(*ssa.Call)
+					if !ok {
+						return false
+					}
+					fo := an.CallObj(call.Common())
+					return fo != nil && fo.Name() == "GetProtocolIds"
+				})
+			})}})
+	}
+	n, bad := 0, ""
+	for _, pkg := range []string{"stream/api/accept", "stream/api/dial", "stream/forwarding", "stream/listening", "stream/echo", "stream/srpc/server", "stream/drpc/server", "signaling/rpc/server", "link/solicit/controller"} {
+		f := p.Func(pkg, "Config", "EqualsConfig")
+		if f == nil {
+			continue
+		}
+		n++
+		c.EachReturn("EQUIV", pkg+".Config.EqualsConfig compares whole configurations", f, "true only as the verdict of EqualVT / the generic whole-message helper", func(s *an.State, ret *ssa.Return) string {
+			rv := s.RetVal(ret, 0)
+			if s.IsFalse(rv) {
+				return ""
+			}
+			call, ok := s.Canon(rv).(*ssa.Call)
+			if ok {
+				name := ""
+				if fo := an.CallObj(call.Common()); fo != nil {
+					name = fo.Name()
+				} else if call.Call.IsInvoke() {
+					name = call.Call.Method.Name()
+				}
+				if name == "EqualVT" || name == "EqualsConfig" || name == "Equal" {
+					return ""
+				}
+			}
+			return "configuration equivalence is decided field by field (or otherwise than by whole-message equality): registrations that differ in an uncompared filter field are merged by the controller loader"
+		})
+		_ = bad
+	}
+	c.Require(n >= 3, "EQUIV", "stream handler Config.EqualsConfig implementations found", nil, "", n, "implementations enumerated", "fewer than 3 EqualsConfig implementations found in the stream-handler packages (anchor drift)")
 }
